@@ -9,6 +9,7 @@ VERUS_UNITS = {
     "u8_builder": dict(template="units/u8_builder.vrs", rlimit=80),
     "u9_metrics": dict(template="units/u9_metrics.vrs", rlimit=80),
     "u8_builder_async": dict(template="units/u8_builder_async.vrs", rlimit=80),
+    "u10_valueref": dict(template="units/u10_valueref.vrs", rlimit=60),
     "u19_async": dict(template="units/u19_async.vrs", rlimit=120),
     "u19_async_policy": dict(template="units/u19_async_policy.vrs", rlimit=120),
 }
@@ -42,8 +43,8 @@ PROPS = {
     "C13": dict(units=["u1_estimator", "u8_builder", "u8_builder_async"], kani=["bbloom"], replay=["estimator", "cache"]),
     "C14": dict(units=["u1_estimator"], kani=["bbloom"], replay=["estimator"]),
     "C20": dict(units=["u1_estimator", "u8_builder", "u7_glue", "u19_async", "u8_builder_async", "u6_store"], kani=["bbloom", "ttl"], replay=["estimator", "cache", "async_cache"]),
-    "C02": dict(units=["u6_store", "u7_glue", "u19_async", "u8_builder", "u8_builder_async"], kani=["keys"], replay=["ttl", "async_sweep", "cache", "async_cache"]),
-    "C03": dict(units=["u6_store", "u7_glue", "u19_async"], kani=["ttl"], replay=["ttl", "async_sweep"]),
+    "C02": dict(units=["u6_store", "u7_glue", "u19_async", "u8_builder", "u8_builder_async", "u10_valueref"], kani=["keys"], replay=["ttl", "async_sweep", "cache", "async_cache"]),
+    "C03": dict(units=["u6_store", "u7_glue", "u19_async", "u10_valueref"], kani=["ttl"], replay=["ttl", "async_sweep"]),
     "C04": dict(units=["u6_store", "u4_policy", "u7_glue", "u19_async", "u19_async_policy", "u8_builder", "u8_builder_async"], kani=["ttl", "keys"], replay=["ttl", "async_sweep", "policy", "cache", "async_cache"]),
     "C05": dict(units=["u6_store", "u4_policy", "u8_builder", "u19_async_policy", "u8_builder_async"], kani=["ttl"], replay=["ttl", "async_sweep", "cache"]),
     "C09": dict(units=["u6_store", "u7_glue", "u19_async", "u8_builder", "u8_builder_async"], kani=["keys"], replay=["ttl", "async_sweep", "cache", "async_cache"]),
